@@ -71,6 +71,21 @@ impl SendWindow {
         self.sent_at = Instant::MAX;
     }
 
+    /// Check the ACK seq num in the incoming packet (if any): it must acknowledge a segment
+    /// which is still in flight, or repeat the previous acknowledgement.
+    fn check_ack(&self, hdr: &BtpHdr) -> Result<(), Error> {
+        if let Some(ack_seq_num) = hdr.get_ack() {
+            let unacknowledged = self.last_sent_seq_num.wrapping_sub(ack_seq_num);
+
+            if unacknowledged > self.window_size - self.level {
+                warn!("RX data integrity failure: ACK for a sequence number which is not in flight");
+                return Err(ErrorCode::InvalidData.into());
+            }
+        }
+
+        Ok(())
+    }
+
     /// Update the sending window level when a new BTP segment had arrived,
     /// based on the ACK seq num in the incoming packet (if any).
     fn accept_incoming(&mut self, hdr: &BtpHdr) {
@@ -670,6 +685,7 @@ impl Session {
             payload.len()
         );
 
+        self.send_window.check_ack(&hdr)?;
         self.recv_window.accept_incoming(&hdr, payload, self.mtu)?;
         self.send_window.accept_incoming(&hdr);
 
